@@ -531,3 +531,42 @@ func runEarlyErrors(r *engine.Run) {
 	r.Bound("cases", fmt.Sprint(n))
 	h.finish("earlyerrors")
 }
+
+// runLexErrors: every lexical early error as one token, followed - across each
+// kind of separator - by every class of next token. State that belongs to the
+// erroneous token must not be consulted after the cursor has moved: the text
+// stays rejected (the reference decides; a few juxtapositions without a
+// separator merge into a valid token, e.g. `1e` `5`) and running it has no effect.
+func runLexErrors(r *engine.Run) {
+	h := newHarness(r, 64)
+	bad := []string{
+		`'\x4'`, `"\xg1"`, `'\x'`, `'\u00g0'`, `"\u12"`, `'\u'`, `"a\u123"`, `'\xZZb'`,
+		"3in", "3a", "08", "09.5", "1e", "1e+", "1.e-", "0x", "0xg", "1_0", "0b1", "1.2.3", "5..",
+		"'abc", "\"abc", "'a\\", "/abc", "/[/", "/a\\", "/* c", "/a/gg", "/a/x", "/(/", "/a**/", "/*/",
+		`\u00`, `a b`, `1a`, `a\`, `\x41`, "@", "#", "`", "a@",
+	}
+	prefixes := []string{"", "x = ", "hit = 1 ; ", "f ( ", "a = [ "}
+	seps := []string{"", " ", "\n", " // c\n", " /* c */ ", "/*\n*/", " ;", " ;\n", "\r\n", "\r", "\u2028", "\n\n", ","}
+	next := []string{
+		"", "'b'", "\"use strict\"", "\"b\" ;", "'b'\n'c'", `'\x41'`, `"a\nb"`, `'A' ;`, "1", ".5", "0x1", "1e3", "/r/g", "/=r/", "/[/]/ ;", "b", "b ;", "b ( )", "this", "null", "true",
+		"in b", "instanceof b", "if ( b ) c", "function g ( ) { }", "var v", "return", "typeof b", "new B", "else", "case", "debugger", "x ( ) ;",
+	}
+	for _, p := range strings.Fields(`{ } ( ) [ ] . ; , < > <= >= == != === !== + - * % ++ -- << >> >>> & | ^ ! ~ && || ? : = += -= *= %= <<= >>= >>>= &= |= ^= / /=`) {
+		next = append(next, p, p+" b")
+	}
+	for bi, b := range bad {
+		for pi, p := range prefixes {
+			for si, s := range seps {
+				for ni, n := range next {
+					if k := fmt.Sprintf("%d/%d/%d/%d", bi, pi, si, ni); mine(r, k) {
+						h.one(k, p+b+s+n)
+					}
+				}
+			}
+		}
+	}
+	r.Bound("bad_tokens", fmt.Sprint(len(bad)))
+	r.Bound("separators", fmt.Sprint(len(seps)))
+	r.Bound("next_tokens", fmt.Sprint(len(next)))
+	h.finish("lexerrors")
+}
